@@ -1,41 +1,54 @@
 #!/bin/sh
 # usage: run.sh <Cxx> quick|thorough   |   run.sh replay <file>
-# Rebuilds the harness against /repo's current working tree, then runs the check.
+# Rebuilds the harness against the repository's current working tree (/repo), then runs the check.
 # Checks that need the controlled scheduler (C11 C12 C15 C16) run a second binary built
-# with `go build -overlay`: package bcl is rewritten at this point from /repo's working
-# tree (channel ops, go, select, map range, shared accesses -> mc/vsched); /repo is untouched.
+# with `go build -overlay`: package bcl is rewritten at this point from the working tree
+# (channel ops, go, select, map range, shared accesses -> mc/vsched); the repository is untouched.
+#
+# Development aid only (never used by the registered commands): VERIF_REPO=<dir> checks another
+# checkout (a scratch worktree with a seeded change), VERIF_WORK / VERIF_OUT keep its build
+# output and evidence apart, so several such runs can go in parallel while /repo stays clean.
 cd "$(dirname "$0")" || exit 2
 . ./env.sh
-mkdir -p .work/gocache
+REPO="${VERIF_REPO:-/repo}"
+WORK="${VERIF_WORK:-$VERIF_DIR/.work}"
+export VERIF_REPO="$REPO" VERIF_WORK="$WORK"
+mkdir -p "$WORK" "$VERIF_DIR/.work/gocache"
+MODFLAG=""
+if [ "$REPO" != /repo ]; then
+  sed "s#=> /repo#=> $REPO#" mc/go.mod > "$WORK/go.alt.mod"
+  cp mc/go.sum "$WORK/go.alt.sum"
+  MODFLAG="-modfile=$WORK/go.alt.mod"
+fi
 build_plain() {
-  if ! (cd mc && go build -o ../.work/bclmc ./cmd/bclmc) >.work/build.log 2>&1; then
+  if ! (cd mc && go build $MODFLAG -o "$WORK/bclmc" ./cmd/bclmc) >"$WORK/build.log" 2>&1; then
     echo "INFRA: harness build failed" >&2
-    cat .work/build.log >&2
+    cat "$WORK/build.log" >&2
     exit 2
   fi
 }
 build_e1() {
-  if ! .work/bclmc instrument >.work/instr.log 2>&1; then
+  if ! "$WORK/bclmc" instrument >"$WORK/instr.log" 2>&1; then
     echo "INFRA: instrumenter failed" >&2
-    cat .work/instr.log >&2
+    cat "$WORK/instr.log" >&2
     exit 2
   fi
-  if ! (cd mc && go build -overlay ../.work/overlay/overlay.json -o ../.work/bclmc-e1 ./cmd/bclmc) >.work/build-e1.log 2>&1; then
+  if ! (cd mc && go build $MODFLAG -overlay "$WORK/overlay/overlay.json" -o "$WORK/bclmc-e1" ./cmd/bclmc) >"$WORK/build-e1.log" 2>&1; then
     echo "INFRA: instrumented build failed" >&2
-    cat .work/build-e1.log >&2
+    cat "$WORK/build-e1.log" >&2
     exit 2
   fi
 }
 build_racepass() {
   # supplementary free-running pass for C12 (uninstrumented, Go race detector); optional
-  (cd mc && go build -race -o ../.work/racepass ./cmd/racepass) >.work/build-race.log 2>&1 || rm -f .work/racepass
+  (cd mc && go build $MODFLAG -race -o "$WORK/racepass" ./cmd/racepass) >"$WORK/build-race.log" 2>&1 || rm -f "$WORK/racepass"
 }
 build_cli() {
   # the real command-line tool from the working tree, and a variant with an argument server added by overlay
-  if ! (cd /repo && go build -o "$VERIF_DIR/.work/bcl-cli" ./cmd/bcl) >.work/build-cli.log 2>&1; then
-    echo "INFRA: cmd/bcl does not build" >&2; cat .work/build-cli.log >&2; exit 2
+  if ! (cd "$REPO" && go build -o "$WORK/bcl-cli" ./cmd/bcl) >"$WORK/build-cli.log" 2>&1; then
+    echo "INFRA: cmd/bcl does not build" >&2; cat "$WORK/build-cli.log" >&2; exit 2
   fi
-  ov=$(.work/bclmc cli-overlay) && (cd /repo && go build -overlay "$ov" -o "$VERIF_DIR/.work/bcl-argv" ./cmd/bcl) >.work/build-argv.log 2>&1 || rm -f .work/bcl-argv
+  ov=$("$WORK/bclmc" cli-overlay) && (cd "$REPO" && go build -overlay "$ov" -o "$WORK/bcl-argv" ./cmd/bcl) >"$WORK/build-argv.log" 2>&1 || rm -f "$WORK/bcl-argv"
 }
 needs_e1() {
   case "$1" in C11|C12|C15|C16) return 0 ;; esac
@@ -46,11 +59,11 @@ case "$1" in
   replay)
     id=$(basename "$2" | cut -d- -f1)
     if [ "$id" = C18 ]; then build_cli; fi
-    if needs_e1 "$id"; then build_e1; exec .work/bclmc-e1 replay "$2"; fi
-    exec .work/bclmc replay "$2" ;;
+    if needs_e1 "$id"; then build_e1; exec "$WORK/bclmc-e1" replay "$2"; fi
+    exec "$WORK/bclmc" replay "$2" ;;
   *)
     if [ "$1" = C12 ]; then build_racepass; fi
     if [ "$1" = C18 ]; then build_cli; fi
-    if needs_e1 "$1"; then build_e1; exec .work/bclmc-e1 check "$1" "${2:-quick}"; fi
-    exec .work/bclmc check "$1" "${2:-quick}" ;;
+    if needs_e1 "$1"; then build_e1; exec "$WORK/bclmc-e1" check "$1" "${2:-quick}"; fi
+    exec "$WORK/bclmc" check "$1" "${2:-quick}" ;;
 esac
